@@ -113,8 +113,8 @@ func (p *parser) Parse(objDump string) ([]Syscall, error) {
 		syscalls = append(syscalls, *syscall)
 	}
 
-	if s.Err() != nil {
-		return nil, err
+	if err := s.Err(); err != nil {
+		return nil, fmt.Errorf("failed to read objdump file: %v", err)
 	}
 
 	return syscalls, nil
